@@ -22,7 +22,7 @@ func c17(r *rng, tier string, o *out) {
 	}
 	for c := 0; c < n; c++ {
 		depth := r.intn(4)
-		opts := treeOpts{depth: depth, fan: 1 + r.intn(6), gzip: r.chance(50), shorthand: r.chance(70)}
+		opts := treeOpts{depth: depth, fan: 1 + r.intn(6), gzip: r.chance(50), shorthand: r.chance(70), mixed: r.chance(40)}
 		ne := r.intn(30)
 		if r.chance(5) {
 			ne = 0
@@ -65,6 +65,7 @@ func c17(r *rng, tier string, o *out) {
 		idx := o.emit(line, impl, depth > 0 || len(fail) > 0)
 		o.count(fmt.Sprintf("depth=%d", depth))
 		o.count(fmt.Sprintf("failmode=%d", mode))
+		o.count(fmt.Sprintf("mixed=%v", opts.mixed))
 		// oracle on the implementation alone, from the generator's ground truth
 		if len(fail) == 0 {
 			want := "ok " + entsStr(es)
